@@ -62,6 +62,8 @@ def parse_answers(text):
             d["IMG"][(int(k[3:]), who)] = img
         elif k.startswith("GUARD"):
             d["GUARD"] = True
+        elif k == "NFRAMES":
+            d["NFRAMES"] = [int(x) for x in v.split()]
         elif k == "REFTRACE":
             d["REFTRACE"] = v
         elif k == "CORRUPT":
@@ -125,7 +127,10 @@ def judge_func(meta, ans, cat):
     return out
 
 
-def judge_program(meta, ans, cat):
+HOLE_KEY = "C08/operand-after-hole-dropped"
+
+
+def judge_program(meta, ans, cat, holes_known=True):
     """Returns list of (key, what). Independent of the Coq model."""
     if meta["kind"] == "func":
         return judge_func(meta, ans, cat)
@@ -178,25 +183,67 @@ def judge_program(meta, ans, cat):
             b, r1 = strip_bytes(b), strip_bytes(r1)
         if kind != "edit" and not any(ea) and not any(eb) and fb == 0 and b != r1:
             out.append(("C08/%s/image-differs-from-direct-assembling" % shape, "Builder image differs from the Assembler fed the calls in call order (base #%d):\n B : %s\n R1: %s" % (w, b[:400], r1[:400])))
-    if out and kind == "malformed":
+    if out and kind == "malformed" and holes_known:
         holes = [i for i, l in enumerate(lines) if operand_after_hole(l)]
         if holes:
             # recorded defect (malformed calls only): the Builder records op_count_from_emit_args() operands, i.e. it drops every operand that follows
             # an empty slot, while the Assembler sees all six slots (refuses the call, or - AArch64 register lists - encodes something else)
             return [("C08/operand-after-hole-dropped",
-                     "call %d `%s` has an operand after an empty slot: the Builder records it without that operand (C08_all_operands_kept_refuted), "
+                     "call %d `%s` has an operand after an empty slot: the Builder records it without that operand (against C08_all_operands_kept), "
                      "the Assembler uses all six slots; first disagreement: %s" % (holes[0], lines[holes[0]], out[0][1][:300]))]
     return out
 
 
-def operand_after_hole(line):
-    """an `I` command whose operand list has an empty slot followed by a non-empty one"""
+def _sigs(line):
     t = line.split()
-    if t[0] != "I":
-        return False
+    if t and t[0].startswith("@"):
+        t = t[1:]
+    if not t or t[0] != "I":
+        return None, None
     n = int(t[2])
-    sigs = [int(t[3 + 4 * i]) for i in range(n)]
-    return any(sigs[i] == 0 and any(x != 0 for x in sigs[i + 1:]) for i in range(n))
+    return t, [int(t[3 + 4 * i]) for i in range(n)]
+
+
+def legacy_count(sigs):
+    """op_count_from_emit_args before fixes/C08-op-count-keeps-operands-after-hole.patch"""
+    s = (list(sigs) + [0] * 6)[:6]
+    if s[3] == 0:
+        return 3 if s[2] else 2 if s[1] else 1 if s[0] else 0
+    return 4 if s[4] == 0 else 5 if s[5] == 0 else 6
+
+
+def full_count(sigs):
+    s = (list(sigs) + [0] * 6)[:6]
+    return max([i + 1 for i in range(6) if s[i]] or [0])
+
+
+def operand_after_hole(line):
+    """an `I` command that has an operand after an empty slot which the unrepaired counting rule drops"""
+    t, sigs = _sigs(line)
+    return sigs is not None and legacy_count(sigs) < full_count(sigs)
+
+
+def legacy_truncate(line):
+    """the command the unrepaired Builder effectively records for `line` (operands from the dropped slot on removed)"""
+    t, sigs = _sigs(line)
+    if sigs is None or legacy_count(sigs) >= full_count(sigs):
+        return line
+    k = legacy_count(sigs)
+    pre = line.split()[0] + " " if line.startswith("@") else ""
+    return pre + " ".join(t[:2] + [str(k)] + t[3:3 + 4 * k])
+
+
+def first_difference(ms, is_, a):
+    """index of the first command after which model and implementation dumps differ (None: none), and the number of steps compared;
+    the model prints "UNDEF" from the first command whose effect it does not define"""
+    upto = len(ms)
+    for i, l in enumerate(ms):
+        if "UNDEF" in l:
+            upto = i
+            break
+    if ms[:upto] != is_[:upto] or (upto == len(ms) and len(ms) != len(is_) and not a.get("CORRUPT")):
+        return next((i for i in range(min(upto, len(is_))) if ms[i] != is_[i]), min(upto, len(is_))), upto
+    return None, upto
 
 
 def strip_bytes(img):
@@ -297,7 +344,7 @@ def probe_714(impl, cat):
 
 def gen_all(ck, cat, rng, allow_xsec=False):
     quick = ck.tier == "quick"
-    n = int(os.environ.get("C08_N", 2400 if quick else 150000))
+    n = int(os.environ.get("C08_N", 2100 if quick else 150000))
     progs = []
     kinds = ["pure"] * 4 + ["edit"] * 4 + ["malformed"] * 2 + ["func"]
     corpus = os.path.join(vlib.VERIF, "corpus", "C08.txt")
@@ -349,6 +396,7 @@ def run(ck):
         out = ""
     ans = parse_answers(out)
     mans = {}
+    mans_legacy = {}
     if model and not crashed:
         # strict-validation programs: the validator is opaque to the model, its verdict (the Builder's answer to each `I`) is an input:
         # a refused `I` becomes `IR <error>` in the model's copy of the program
@@ -371,6 +419,17 @@ def run(ck):
             ck.violation("C08/model-driver-crash", "the extracted model driver died: %s" % (mout[2],), {"detail": str(mout[2])}, no_input=True)
         else:
             mans = parse_answers(mout)
+        # the model keeps an operand that follows an empty slot (C08_all_operands_kept).  A tree whose op_count_from_emit_args still drops it is
+        # reported once per program (C08/operand-after-hole-dropped) at that command; the rest of such a program is then compared against the
+        # model fed the command the tree effectively recorded, so that nothing after the first hole escapes the differential
+        ltexts = []
+        for mt, (text, meta) in zip(mtexts, progs):
+            if any(operand_after_hole(l) for l in meta["lines"]):
+                ltexts.append("\n".join(legacy_truncate(l) for l in mt.split("\n")))
+        if ltexts and mans:
+            lout = run_sharded(model, ltexts)
+            if not isinstance(lout, tuple):
+                mans_legacy = parse_answers(lout)
 
     stats = {}
     n_err_free = 0
@@ -382,6 +441,8 @@ def run(ck):
     oracle_only = 0
     ref_checked = 0
     n_shrunk = 0
+    n_hole_steps = 0
+    func_by_arch = {}
     samples = []
     for text, meta in progs:
         if crashed:
@@ -391,7 +452,22 @@ def run(ck):
         for k, v in meta["stats"].items():
             stats[k] = stats.get(k, 0) + v
         js = judge_program(meta, a, cat)
+        if any(k == HOLE_KEY for k, _w in js) and model and mans.get(meta["pidx"]) and a:
+            # the disagreement of the images is attributed to the recorded defect only when the tree really dropped the operand at record
+            # time (the node list differs from the proven model's at such a command); anything else is judged on its own
+            dropped = False
+            for tag in ("STEP", "STEPC"):
+                fd, _u = first_difference(mans[meta["pidx"]]["STEP"], list(a[tag]), a)
+                if fd is not None and fd < len(meta["lines"]) and operand_after_hole(meta["lines"][fd]):
+                    dropped = True
+            if not dropped:
+                js = judge_program(meta, a, cat, holes_known=False)
         n_judged += 1
+        if meta["kind"] == "func" and a and a.get("NFRAMES"):
+            fa = func_by_arch.setdefault({0: "x86-32", 1: "x86-64", 2: "aarch64"}[meta["arch"]], {"programs": 0, "functions": 0, "frames_with_calls_saves_or_stack": 0})
+            fa["programs"] += 1
+            fa["functions"] += a["NFRAMES"][0]
+            fa["frames_with_calls_saves_or_stack"] += (a["NFRAMES"][1] if len(a["NFRAMES"]) > 1 else 0)
         if a and "EB" in a and not any(a["EB"][0]) and a["EB"][1] == 0:
             n_err_free += 1
         if a and a.get("DUMP") and len(meta["lines"]) > 4:
@@ -420,19 +496,21 @@ def run(ck):
                     ck.violation("C08/oracle-vs-model/reference", "program %d: the list oracle's reference sequence and the model's serialization differ (%s)" % (meta["pidx"], rt),
                                  {"program": text, "broken": "python ListOracle vs BuilderModel.replay", "detail": rt}, no_input=True)
             for tag in (("STEPF",) if meta["kind"] == "func" else ("STEP", "STEPC")):
-                ms, is_ = m["STEP"], list(a[tag])
-                # model prints "UNDEF" from the first command whose effect the model does not define (double bind of an active label node)
-                upto = len(ms)
-                for i, l in enumerate(ms):
-                    if "UNDEF" in l:
-                        upto = i
-                        break
+                is_ = list(a[tag])
+                first, upto = first_difference(m["STEP"], is_, a)
                 steps_compared += upto
-                if ms[:upto] != is_[:upto] or (upto == len(ms) and len(ms) != len(is_) and not a.get("CORRUPT")):
+                if first is not None and first < len(meta["lines"]) and operand_after_hole(meta["lines"][first]) and meta["pidx"] in mans_legacy:
+                    n_hole_steps += 1
+                    ck.violation("C08/operand-after-hole-dropped",
+                                 "program %d (%s, arch %d): command %d `%s` has an operand after an empty slot; the %s records the instruction without it (the proven model keeps it: "
+                                 "C08_all_operands_kept)" % (meta["pidx"], meta["kind"], meta["arch"], first, meta["lines"][first], "Builder" if tag == "STEP" else "Compiler"),
+                                 {"program": text, "step": first, "kind": meta["kind"], "arch": meta["arch"]})
+                    first, upto2 = first_difference(mans_legacy[meta["pidx"]]["STEP"], is_, a)
+                    steps_compared += max(0, upto2 - upto)
+                if first is not None:
                     disagreements += 1
                     if os.environ.get("C08_DEBUG"):
-                        print("DISAGREE", meta["pidx"], meta["kind"], meta["double_bind"], meta.get("double_bind_at"), tag, len(ms), len(is_), upto, [k for k, _ in js])
-                    first = next((i for i in range(min(upto, len(is_))) if ms[i] != is_[i]), min(upto, len(is_)))
+                        print("DISAGREE", meta["pidx"], meta["kind"], meta["double_bind"], meta.get("double_bind_at"), tag, len(is_), upto, [k for k, _ in js])
                     rc1, vo, _ = vlib.sh([impl, "run", "-v"], inp=text, timeout=120)
                     rc2, vm, _ = vlib.sh([model, "-v"], inp=text, timeout=120)
                     va = parse_answers(vo).get(meta["pidx"], {}).get({"STEP": "V", "STEPC": "VC", "STEPF": "VF"}[tag], [])
@@ -474,7 +552,7 @@ def run(ck):
                  "section switches; 40% with node-list edits, 20% malformed) generated from VERIF_SEED for x86-64/x86-32/AArch64; a program is non-trivial when it "
                  "has more than 4 commands; distinct = distinct final node-list dumps",
          "samples": samples, "programs_by_kind": kinds, "input_distribution": stats, "programs_without_any_error": n_err_free, "cross_section_label_references_generated": allow_xsec,
-         "node_list_steps_compared_with_model": steps_compared, "reference_sequences_equal_to_model_serialization": ref_checked, "programs_under_strict_validation": len([1 for _t, m in progs if m.get("validate")]), "unsupported": {"programs_judged_by_oracle_only": oracle_only}, "model_vs_impl_disagreements": disagreements,
+         "node_list_steps_compared_with_model": steps_compared, "reference_sequences_equal_to_model_serialization": ref_checked, "programs_under_strict_validation": len([1 for _t, m in progs if m.get("validate")]), "commands_with_operand_after_hole_compared_as_recorded": n_hole_steps, "function_programs_by_arch": func_by_arch, "unsupported": {"programs_judged_by_oracle_only": oracle_only}, "model_vs_impl_disagreements": disagreements,
          "traces_validated_against_impl": n_judged if model else 0},
         assumptions=["theorems are about the Gallina model BuilderModel.v; the model is tied to builder.cpp by the per-command node-list differential of this check",
                      "the instruction encoder is opaque to the model (C01/C02 speak about it); equality of images is established per run by the implementation-vs-implementation oracle",
